@@ -1,12 +1,855 @@
-//! Extension module (Tier A): owner fills in. Output: coq/gen/DetFacts.v
+//! Extension module (Tier A) for C20. Output: coq/gen/DetFacts.v
 //! Contract: return (text of the .v file, report lines). Each report line is one JSON object
 //! {"item":"DetFacts.<name>","file":"<rust file>","ok":true|false[,"error":"..."]}.
 //! Fail closed: when a site is not recognised, OMIT the Gallina definition (so dependent proofs stop
 //! compiling) and push an ok:false report line.
+//!
+//! Two regenerated inventories over the NON-TEST code of the workspace:
+//!  * `iter_sites`: every iteration (`for .. in`, `.iter()`, `.iter_mut()`, `.drain()`,
+//!    `.into_iter()`, `.keys()`, `.values()`, `.values_mut()`, `.into_keys()`, `.into_values()`,
+//!    `.par_iter()`, `.retain()`) whose receiver is a struct field / local / parameter declared with a
+//!    hash-based container type, in src/, egglog-bridge/src, core-relations/src -- classified by the
+//!    container class the name resolves to IN THAT FILE (the `use` items of the file, then the crate's
+//!    own aliases). Map-only methods (`keys`/`values`/..., `drain()` without a range) on a receiver
+//!    whose type the scan cannot see are inventoried as class `CUntyped`.
+//!  * `nd_sources`: clock, rng, CPU-count, pointer formatting, environment, pid and address reads
+//!    (token scan, so macro arguments are covered), per file and kind with their number.
+use std::collections::BTreeMap;
+use std::path::{Path, PathBuf};
+use syn::visit::Visit;
 
-pub fn generate(_repo: &std::path::Path) -> (String, Vec<String>) {
-    (
-        "(* GENERATED by /verif/translator (x_det.rs): nothing extracted yet *)\n".to_string(),
-        Vec::new(),
-    )
+#[derive(Clone, Copy, PartialEq, Eq, PartialOrd, Ord, Debug)]
+enum Class {
+    InsertionOrdered,
+    FixedBucket,
+    RawTable,
+    ShardedFixed,
+    LibDefault,
+    ImRandom,
+    StdRandom,
+    Unknown,
+    Untyped,
+}
+
+impl Class {
+    fn coq(self) -> &'static str {
+        match self {
+            Class::InsertionOrdered => "CInsertionOrdered",
+            Class::FixedBucket => "CFixedBucket",
+            Class::RawTable => "CRawTable",
+            Class::ShardedFixed => "CShardedFixed",
+            Class::LibDefault => "CLibDefault",
+            Class::ImRandom => "CImRandom",
+            Class::StdRandom => "CStdRandom",
+            Class::Unknown => "CUnknown",
+            Class::Untyped => "CUntyped",
+        }
+    }
+}
+
+const CONTAINERS: [&str; 6] = ["HashMap", "HashSet", "IndexMap", "IndexSet", "DashMap", "HashTable"];
+const ITER_METHODS: [&str; 17] = [
+    "iter", "iter_mut", "drain", "into_iter", "keys", "values", "values_mut", "into_keys", "into_values", "par_iter",
+    "par_iter_mut", "into_par_iter", "par_drain", "retain", "shards", "shards_mut", "into_shards",
+];
+const MAPLIKE: [&str; 9] = ["keys", "values", "values_mut", "into_keys", "into_values", "drain", "shards", "shards_mut", "into_shards"];
+/// wrappers that do not change which container an expression denotes
+const TRANSPARENT_METHODS: [&str; 22] = [
+    "clone", "borrow", "borrow_mut", "lock", "read", "write", "unwrap", "expect", "as_ref", "as_mut", "deref", "deref_mut",
+    "to_owned", "take", "unwrap_or_default", "by_ref", "as_deref", "as_deref_mut", "try_lock", "get_mut_unchecked", "cloned", "copied",
+];
+/// accessors that go one level INTO a container (the value type)
+const DESCEND_METHODS: [&str; 12] = [
+    "get", "get_mut", "get_or_default", "entry", "or_default", "or_insert_with", "or_insert", "remove", "get_index", "get_or_insert_with",
+    "get_index_mut", "swap_remove",
+];
+
+fn toks<T: quote::ToTokens>(t: &T) -> String {
+    t.to_token_stream().to_string().replace(' ', "")
+}
+
+fn is_test_attr(attrs: &[syn::Attribute]) -> bool {
+    attrs.iter().any(|a| {
+        let s = toks(a);
+        s.contains("cfg(test)") || s == "#[test]" || s.contains("cfg(all(test") || s.contains("cfg(any(test")
+    })
+}
+
+fn walk(d: &Path, acc: &mut Vec<PathBuf>) {
+    if let Ok(rd) = std::fs::read_dir(d) {
+        for e in rd.flatten() {
+            let p = e.path();
+            if p.is_dir() {
+                walk(&p, acc);
+            } else if p.extension().map(|x| x == "rs").unwrap_or(false) {
+                acc.push(p);
+            }
+        }
+    }
+}
+
+fn source_files(repo: &Path, dirs: &[&str]) -> Vec<(String, PathBuf)> {
+    let mut files = Vec::new();
+    for d in dirs {
+        walk(&repo.join(d), &mut files);
+    }
+    files.sort();
+    files
+        .into_iter()
+        .filter_map(|f| {
+            let rel = f.strip_prefix(repo).ok()?.to_string_lossy().to_string();
+            let fname = f.file_name()?.to_string_lossy().to_string();
+            if fname == "tests.rs" || rel.contains("/tests/") || rel.contains("bench") {
+                None
+            } else {
+                Some((rel, f))
+            }
+        })
+        .collect()
+}
+
+fn crate_of(rel: &str) -> &str {
+    for c in ["egglog-bridge/src", "core-relations/src", "union-find/src", "concurrency/src", "numeric-id/src", "egglog-ast/src", "egglog-reports/src", "src"] {
+        if rel.starts_with(c) {
+            return c;
+        }
+    }
+    ""
+}
+
+/// the class a QUALIFIED path (prefix segments + container name + generic args text) denotes
+fn class_qualified(prefix: &[String], name: &str, generics: &str, aliases: &BTreeMap<String, Class>) -> Class {
+    let fx = generics.contains("FxHasher") || generics.ends_with(",BuildHasher>") || generics.contains("FxBuildHasher");
+    let root = prefix.first().map(|s| s.as_str()).unwrap_or("");
+    match root {
+        "hashbrown" => match name {
+            "HashMap" | "HashSet" => {
+                if fx {
+                    Class::FixedBucket
+                } else {
+                    Class::LibDefault
+                }
+            }
+            "HashTable" => Class::RawTable,
+            _ => Class::Unknown,
+        },
+        "indexmap" => match name {
+            "IndexMap" | "IndexSet" => Class::InsertionOrdered,
+            _ => Class::Unknown,
+        },
+        "dashmap" => {
+            if name == "DashMap" && fx {
+                Class::ShardedFixed
+            } else {
+                Class::LibDefault
+            }
+        }
+        "std" | "collections" | "alloc" => Class::StdRandom,
+        "im_rc" | "im" => Class::ImRandom,
+        "crate" | "super" | "self" | "util" | "common" | "egglog" | "core_relations" | "egglog_core_relations" => {
+            aliases.get(name).or_else(|| aliases.get(&format!("~{name}"))).copied().unwrap_or(Class::Unknown)
+        }
+        _ => Class::Unknown,
+    }
+}
+
+struct FileCtx {
+    /// bare container names as resolved by this file's `use` items
+    bare: BTreeMap<String, Class>,
+    /// aliases of the crate (fallback for glob imports of the crate root / util / common)
+    aliases: BTreeMap<String, Class>,
+}
+
+impl FileCtx {
+    fn is_container_name(&self, n: &str) -> bool {
+        CONTAINERS.contains(&n) || self.aliases.contains_key(n) || self.bare.contains_key(n) || self.aliases.contains_key(&format!("~{n}"))
+    }
+    fn is_inner_alias(&self, n: &str) -> bool {
+        self.aliases.contains_key(&format!("~{n}"))
+    }
+    fn class_of_path(&self, p: &syn::Path) -> Option<Class> {
+        let segs: Vec<String> = p.segments.iter().map(|s| s.ident.to_string()).collect();
+        let k = segs.iter().position(|s| self.is_container_name(s))?;
+        let name = &segs[k];
+        let generics = toks(&p.segments[k].arguments);
+        if k == 0 {
+            if let Some(c) = self.bare.get(name) {
+                return Some(*c);
+            }
+            if let Some(c) = self.aliases.get(&format!("~{name}")) {
+                return Some(*c);
+            }
+            return Some(self.aliases.get(name).copied().unwrap_or(Class::Unknown));
+        }
+        Some(class_qualified(&segs[..k], name, &generics, &self.aliases))
+    }
+    /// classes of the hash containers named by a type, outermost first; `outer` = the outermost
+    /// type constructor (through references and transparent wrappers) is itself a container
+    fn type_info(&self, t: &syn::Type) -> Option<TypeInfo> {
+        struct V<'c> {
+            ctx: &'c FileCtx,
+            out: Vec<Class>,
+        }
+        impl<'ast, 'c> Visit<'ast> for V<'c> {
+            fn visit_path(&mut self, p: &'ast syn::Path) {
+                if let Some(c) = self.ctx.class_of_path(p) {
+                    self.out.push(c);
+                }
+                syn::visit::visit_path(self, p);
+            }
+        }
+        let mut v = V { ctx: self, out: vec![] };
+        v.visit_type(t);
+        if v.out.is_empty() {
+            return None;
+        }
+        Some(TypeInfo { outer: self.outer_is_container(t), classes: v.out })
+    }
+    fn outer_is_container(&self, t: &syn::Type) -> bool {
+        match t {
+            syn::Type::Reference(r) => self.outer_is_container(&r.elem),
+            syn::Type::Paren(p) => self.outer_is_container(&p.elem),
+            syn::Type::Group(p) => self.outer_is_container(&p.elem),
+            syn::Type::Path(tp) => {
+                if self.class_of_path(&tp.path).is_some() && tp.path.segments.last().map(|s| self.is_container_name(&s.ident.to_string())).unwrap_or(false) {
+                    return !tp.path.segments.last().map(|s| self.is_inner_alias(&s.ident.to_string())).unwrap_or(false);
+                }
+                let last = match tp.path.segments.last() {
+                    Some(l) => l,
+                    None => return false,
+                };
+                let n = last.ident.to_string();
+                if ["Arc", "Rc", "Box", "RefCell", "Mutex", "RwLock", "Option", "Cow", "Pooled", "ReadOptimizedLock", "Cell", "Lazy", "OnceLock"].contains(&n.as_str()) {
+                    if let syn::PathArguments::AngleBracketed(ab) = &last.arguments {
+                        for a in &ab.args {
+                            if let syn::GenericArgument::Type(inner) = a {
+                                return self.outer_is_container(inner);
+                            }
+                        }
+                    }
+                }
+                false
+            }
+            _ => false,
+        }
+    }
+}
+
+#[derive(Clone, Debug)]
+struct TypeInfo {
+    outer: bool,
+    classes: Vec<Class>,
+}
+
+impl TypeInfo {
+    fn worst(a: &TypeInfo, b: &TypeInfo) -> TypeInfo {
+        if b.classes.first() > a.classes.first() {
+            b.clone()
+        } else {
+            a.clone()
+        }
+    }
+    fn descend(&self) -> Option<TypeInfo> {
+        if !self.outer {
+            return Some(TypeInfo { outer: true, classes: self.classes.clone() });
+        }
+        if self.classes.len() > 1 {
+            Some(TypeInfo { outer: true, classes: self.classes[1..].to_vec() })
+        } else {
+            None
+        }
+    }
+}
+
+fn flatten_use(tree: &syn::UseTree, prefix: &mut Vec<String>, out: &mut Vec<(Vec<String>, String)>) {
+    match tree {
+        syn::UseTree::Path(p) => {
+            prefix.push(p.ident.to_string());
+            flatten_use(&p.tree, prefix, out);
+            prefix.pop();
+        }
+        syn::UseTree::Name(n) => out.push((prefix.clone(), n.ident.to_string())),
+        syn::UseTree::Rename(r) => {
+            // `use a::HashMap as Foo`: Foo denotes a::HashMap
+            let mut p = prefix.clone();
+            p.push(r.ident.to_string());
+            out.push((p, format!("as:{}", r.rename)));
+        }
+        syn::UseTree::Glob(_) => out.push((prefix.clone(), "*".to_string())),
+        syn::UseTree::Group(g) => {
+            for t in &g.items {
+                flatten_use(t, prefix, out);
+            }
+        }
+    }
+}
+
+/// pass 1 over a crate: its container aliases (`type X<..> = <container type>;`)
+fn crate_aliases(files: &[(String, syn::File)]) -> BTreeMap<String, Class> {
+    let mut aliases: BTreeMap<String, Class> = BTreeMap::new();
+    // three rounds so that an alias built on another alias of the crate resolves (each round
+    // recomputes every alias from the previous round's table)
+    for _ in 0..3 {
+        let mut next: BTreeMap<String, Class> = BTreeMap::new();
+        for (_, file) in files {
+            struct A<'m> {
+                ctx: FileCtx,
+                found: &'m mut Vec<(String, Class)>,
+                in_test: usize,
+            }
+            impl<'ast, 'm> Visit<'ast> for A<'m> {
+                fn visit_item_mod(&mut self, m: &'ast syn::ItemMod) {
+                    let t = is_test_attr(&m.attrs) || m.ident == "tests";
+                    if t {
+                        self.in_test += 1;
+                    }
+                    syn::visit::visit_item_mod(self, m);
+                    if t {
+                        self.in_test -= 1;
+                    }
+                }
+                fn visit_item_type(&mut self, t: &'ast syn::ItemType) {
+                    if self.in_test > 0 {
+                        return;
+                    }
+                    if let Some(ti) = self.ctx.type_info(&t.ty) {
+                        let n = t.ident.to_string();
+                        if self.ctx.outer_is_container(&t.ty) {
+                            self.found.push((n, ti.classes[0]));
+                        } else {
+                            // an alias that merely CONTAINS a hash container (ChildrenMaps)
+                            self.found.push((format!("~{n}"), ti.classes[0]));
+                        }
+                    }
+                }
+            }
+            let mut found = Vec::new();
+            let mut a = A { ctx: file_ctx(file, &aliases), found: &mut found, in_test: 0 };
+            a.visit_file(file);
+            for (n, c) in found {
+                let e = next.entry(n).or_insert(c);
+                if c > *e {
+                    *e = c;
+                }
+            }
+        }
+        aliases = next;
+    }
+    aliases
+}
+
+fn file_ctx(file: &syn::File, aliases: &BTreeMap<String, Class>) -> FileCtx {
+    struct U {
+        uses: Vec<(Vec<String>, String)>,
+    }
+    impl<'ast> Visit<'ast> for U {
+        fn visit_item_use(&mut self, u: &'ast syn::ItemUse) {
+            flatten_use(&u.tree, &mut Vec::new(), &mut self.uses);
+        }
+    }
+    let mut u = U { uses: vec![] };
+    u.visit_file(file);
+    let mut bare: BTreeMap<String, Class> = BTreeMap::new();
+    let mut bad_glob = false;
+    for (prefix, name) in &u.uses {
+        if name == "*" {
+            if let Some(r) = prefix.first() {
+                if ["hashbrown", "indexmap", "dashmap", "im_rc", "im"].contains(&r.as_str()) || (r == "std" && prefix.iter().any(|s| s == "collections")) {
+                    bad_glob = true;
+                }
+            }
+            continue;
+        }
+        let (qual_prefix, qual_name, local_name): (Vec<String>, String, String) = if let Some(rn) = name.strip_prefix("as:") {
+            let mut p = prefix.clone();
+            let n = p.pop().unwrap_or_default();
+            (p, n, rn.to_string())
+        } else {
+            (prefix.clone(), name.clone(), name.clone())
+        };
+        if !(CONTAINERS.contains(&qual_name.as_str()) || aliases.contains_key(&qual_name) || aliases.contains_key(&format!("~{qual_name}"))) {
+            continue;
+        }
+        let c = if qual_prefix.is_empty() { Class::Unknown } else { class_qualified(&qual_prefix, &qual_name, "", aliases) };
+        let e = bare.entry(local_name).or_insert(c);
+        if c > *e {
+            *e = c;
+        }
+    }
+    if bad_glob {
+        for n in CONTAINERS {
+            bare.entry(n.to_string()).or_insert(Class::Unknown);
+        }
+    }
+    FileCtx { bare, aliases: aliases.clone() }
+}
+
+struct Site {
+    file: String,
+    func: String,
+    what: String,
+    class: Class,
+}
+
+struct Scan<'c> {
+    ctx: &'c FileCtx,
+    fields: &'c BTreeMap<String, TypeInfo>,
+    file: String,
+    cur_fn: String,
+    locals: Vec<BTreeMap<String, TypeInfo>>,
+    in_test: usize,
+    sites: Vec<Site>,
+}
+
+impl<'c> Scan<'c> {
+    fn lookup_local(&self, n: &str) -> Option<TypeInfo> {
+        for m in self.locals.iter().rev() {
+            if let Some(t) = m.get(n) {
+                return Some(t.clone());
+            }
+        }
+        None
+    }
+    fn bind(&mut self, n: String, t: TypeInfo) {
+        if let Some(m) = self.locals.last_mut() {
+            let t2 = match m.get(&n) {
+                Some(old) => TypeInfo::worst(old, &t),
+                None => t,
+            };
+            m.insert(n, t2);
+        }
+    }
+    /// which container (if any the scan can see) an expression denotes; with the printed receiver
+    fn recv(&self, e: &syn::Expr) -> Option<TypeInfo> {
+        match e {
+            syn::Expr::Paren(p) => self.recv(&p.expr),
+            syn::Expr::Group(p) => self.recv(&p.expr),
+            syn::Expr::Reference(r) => self.recv(&r.expr),
+            syn::Expr::Unary(u) => self.recv(&u.expr),
+            syn::Expr::Try(t) => self.recv(&t.expr),
+            syn::Expr::Path(p) => {
+                if p.path.segments.len() == 1 {
+                    self.lookup_local(&p.path.segments[0].ident.to_string())
+                } else {
+                    None
+                }
+            }
+            syn::Expr::Field(f) => match &f.member {
+                syn::Member::Named(id) => self.fields.get(&id.to_string()).cloned(),
+                // tuple-struct fields (`self.0`) are NOT typed: the index alone collides across every
+                // tuple struct of the crate
+                syn::Member::Unnamed(_) => None,
+            },
+            syn::Expr::Index(i) => self.recv(&i.expr).and_then(|t| t.descend()),
+            syn::Expr::MethodCall(m) => {
+                let name = m.method.to_string();
+                if name == "collect" {
+                    if let Some(tf) = &m.turbofish {
+                        for a in &tf.args {
+                            if let syn::GenericArgument::Type(t) = a {
+                                return self.ctx.type_info(t);
+                            }
+                        }
+                    }
+                    return None;
+                }
+                if TRANSPARENT_METHODS.contains(&name.as_str()) {
+                    return self.recv(&m.receiver);
+                }
+                if DESCEND_METHODS.contains(&name.as_str()) {
+                    return self.recv(&m.receiver).and_then(|t| t.descend());
+                }
+                None
+            }
+            syn::Expr::Call(c) => {
+                // HashMap::new() / Default::default() (no) / mem::take(&mut x)
+                if let syn::Expr::Path(p) = &*c.func {
+                    let last = p.path.segments.last().map(|s| s.ident.to_string()).unwrap_or_default();
+                    if (last == "take" || last == "replace") && !c.args.is_empty() {
+                        return self.recv(&c.args[0]);
+                    }
+                    if p.path.segments.len() >= 2 {
+                        // a constructor path: the container is named before the last segment
+                        let mut q = p.path.clone();
+                        q.segments.pop();
+                        let q2: syn::Path = syn::parse_str(toks(&q).trim_end_matches("::")).ok()?;
+                        if let Some(c) = self.ctx.class_of_path(&q2) {
+                            return Some(TypeInfo { outer: true, classes: vec![c] });
+                        }
+                    }
+                }
+                None
+            }
+            _ => None,
+        }
+    }
+    fn show(e: &syn::Expr) -> String {
+        let s = toks(e);
+        if s.len() > 60 {
+            format!("{}..", &s[..60])
+        } else {
+            s
+        }
+    }
+    fn pat_bind(&mut self, p: &syn::Pat, ti: Option<TypeInfo>) {
+        match p {
+            syn::Pat::Ident(pi) => {
+                if let Some(t) = ti {
+                    self.bind(pi.ident.to_string(), t);
+                }
+            }
+            syn::Pat::Type(pt) => {
+                let t = self.ctx.type_info(&pt.ty);
+                self.pat_bind(&pt.pat, t.or(ti));
+            }
+            syn::Pat::Reference(r) => self.pat_bind(&r.pat, ti),
+            _ => {}
+        }
+    }
+    fn enter_fn(&mut self, name: String, inputs: Vec<&syn::FnArg>) -> String {
+        let saved = std::mem::replace(&mut self.cur_fn, name);
+        self.locals.push(BTreeMap::new());
+        for a in inputs {
+            if let syn::FnArg::Typed(pt) = a {
+                let t = self.ctx.type_info(&pt.ty);
+                self.pat_bind(&pt.pat, t);
+            }
+        }
+        saved
+    }
+}
+
+impl<'ast, 'c> Visit<'ast> for Scan<'c> {
+    fn visit_item_mod(&mut self, m: &'ast syn::ItemMod) {
+        let t = is_test_attr(&m.attrs) || m.ident == "tests";
+        if t {
+            return;
+        }
+        syn::visit::visit_item_mod(self, m);
+    }
+    fn visit_item_fn(&mut self, f: &'ast syn::ItemFn) {
+        if is_test_attr(&f.attrs) {
+            return;
+        }
+        let saved = self.enter_fn(f.sig.ident.to_string(), f.sig.inputs.iter().collect());
+        syn::visit::visit_item_fn(self, f);
+        self.locals.pop();
+        self.cur_fn = saved;
+    }
+    fn visit_impl_item_fn(&mut self, f: &'ast syn::ImplItemFn) {
+        if is_test_attr(&f.attrs) {
+            return;
+        }
+        let saved = self.enter_fn(f.sig.ident.to_string(), f.sig.inputs.iter().collect());
+        syn::visit::visit_impl_item_fn(self, f);
+        self.locals.pop();
+        self.cur_fn = saved;
+    }
+    fn visit_trait_item_fn(&mut self, f: &'ast syn::TraitItemFn) {
+        let saved = self.enter_fn(f.sig.ident.to_string(), f.sig.inputs.iter().collect());
+        syn::visit::visit_trait_item_fn(self, f);
+        self.locals.pop();
+        self.cur_fn = saved;
+    }
+    fn visit_expr_closure(&mut self, c: &'ast syn::ExprClosure) {
+        for p in &c.inputs {
+            self.pat_bind(p, None);
+        }
+        syn::visit::visit_expr_closure(self, c);
+    }
+    fn visit_local(&mut self, l: &'ast syn::Local) {
+        // visit the initialiser first (sites inside it), then bind
+        syn::visit::visit_local(self, l);
+        let init_ti = l.init.as_ref().and_then(|i| self.recv(&i.expr));
+        self.pat_bind(&l.pat, init_ti);
+    }
+    fn visit_expr_for_loop(&mut self, fl: &'ast syn::ExprForLoop) {
+        let mut e: &syn::Expr = &fl.expr;
+        loop {
+            match e {
+                syn::Expr::Reference(r) => e = &r.expr,
+                syn::Expr::Paren(p) => e = &p.expr,
+                syn::Expr::Unary(u) => e = &u.expr,
+                _ => break,
+            }
+        }
+        let is_iter_call = matches!(e, syn::Expr::MethodCall(m) if ITER_METHODS.contains(&m.method.to_string().as_str()));
+        if !is_iter_call {
+            if let Some(ti) = self.recv(e) {
+                if ti.outer {
+                    self.sites.push(Site { file: self.file.clone(), func: self.cur_fn.clone(), what: format!("for _ in {}", Self::show(e)), class: ti.classes[0] });
+                }
+            }
+        }
+        syn::visit::visit_expr_for_loop(self, fl);
+    }
+    fn visit_expr_method_call(&mut self, m: &'ast syn::ExprMethodCall) {
+        let name = m.method.to_string();
+        if ITER_METHODS.contains(&name.as_str()) {
+            let maplike = MAPLIKE.contains(&name.as_str()) && (name != "drain" || m.args.is_empty());
+            match self.recv(&m.receiver) {
+                Some(ti) if ti.outer => {
+                    self.sites.push(Site { file: self.file.clone(), func: self.cur_fn.clone(), what: format!("{}.{}()", Self::show(&m.receiver), name), class: ti.classes[0] });
+                }
+                Some(ti) if maplike => {
+                    // a map-only method on something that CONTAINS a hash container
+                    self.sites.push(Site { file: self.file.clone(), func: self.cur_fn.clone(), what: format!("{}.{}()", Self::show(&m.receiver), name), class: ti.classes[0] });
+                }
+                Some(_) => {}
+                None => {
+                    if maplike {
+                        self.sites.push(Site { file: self.file.clone(), func: self.cur_fn.clone(), what: format!("{}.{}()", Self::show(&m.receiver), name), class: Class::Untyped });
+                    }
+                }
+            }
+        }
+        syn::visit::visit_expr_method_call(self, m);
+    }
+}
+
+fn coq_str(s: &str) -> String {
+    format!("\"{}\"%string", s.replace('"', "\"\""))
+}
+
+fn iteration_sites(repo: &Path) -> Result<String, String> {
+    let crates = ["src", "egglog-bridge/src", "core-relations/src"];
+    let mut out = String::new();
+    let mut all_sites: Vec<Site> = Vec::new();
+    let mut alias_rows: Vec<(String, String, Class)> = Vec::new();
+    let mut n_files = 0usize;
+    for cr in crates {
+        let mut parsed: Vec<(String, syn::File)> = Vec::new();
+        for (rel, path) in source_files(repo, &[cr]) {
+            // `src` must not swallow the sub-crates
+            if crate_of(&rel) != cr {
+                continue;
+            }
+            let src = std::fs::read_to_string(&path).map_err(|e| format!("{rel}: {e}"))?;
+            let file = syn::parse_file(&src).map_err(|e| format!("{rel}: does not parse: {e}"))?;
+            parsed.push((rel, file));
+        }
+        if parsed.is_empty() {
+            return Err(format!("no source files under {cr}"));
+        }
+        n_files += parsed.len();
+        let aliases = crate_aliases(&parsed);
+        for (n, c) in &aliases {
+            alias_rows.push((cr.to_string(), n.trim_start_matches('~').to_string(), *c));
+        }
+        // crate-wide field table
+        let mut fields: BTreeMap<String, TypeInfo> = BTreeMap::new();
+        for (_, file) in &parsed {
+            let ctx = file_ctx(file, &aliases);
+            struct F<'c> {
+                ctx: &'c FileCtx,
+                fields: &'c mut BTreeMap<String, TypeInfo>,
+            }
+            impl<'ast, 'c> Visit<'ast> for F<'c> {
+                fn visit_item_mod(&mut self, m: &'ast syn::ItemMod) {
+                    if is_test_attr(&m.attrs) || m.ident == "tests" {
+                        return;
+                    }
+                    syn::visit::visit_item_mod(self, m);
+                }
+                fn visit_fields_unnamed(&mut self, fu: &'ast syn::FieldsUnnamed) {
+                    // tuple-struct fields: keyed by their index (`self.0`)
+                    for (i, f) in fu.unnamed.iter().enumerate() {
+                        if let Some(ti) = self.ctx.type_info(&f.ty) {
+                            let n = format!(".{i}");
+                            let t2 = match self.fields.get(&n) {
+                                Some(old) => TypeInfo::worst(old, &ti),
+                                None => ti,
+                            };
+                            self.fields.insert(n, t2);
+                        }
+                    }
+                }
+                fn visit_field(&mut self, f: &'ast syn::Field) {
+                    if let (Some(id), Some(ti)) = (&f.ident, self.ctx.type_info(&f.ty)) {
+                        let n = id.to_string();
+                        let t2 = match self.fields.get(&n) {
+                            Some(old) => TypeInfo::worst(old, &ti),
+                            None => ti,
+                        };
+                        self.fields.insert(n, t2);
+                    }
+                }
+            }
+            let mut f = F { ctx: &ctx, fields: &mut fields };
+            f.visit_file(file);
+        }
+        for (rel, file) in &parsed {
+            let ctx = file_ctx(file, &aliases);
+            let mut s = Scan { ctx: &ctx, fields: &fields, file: rel.clone(), cur_fn: String::new(), locals: vec![BTreeMap::new()], in_test: 0, sites: vec![] };
+            s.visit_file(file);
+            let _ = s.in_test;
+            all_sites.append(&mut s.sites);
+        }
+    }
+    if all_sites.len() < 20 {
+        return Err(format!("only {} iteration sites recognised in {} files: the scan no longer sees the sources", all_sites.len(), n_files));
+    }
+    out.push_str("Inductive cclass := CInsertionOrdered | CFixedBucket | CRawTable | CShardedFixed | CLibDefault | CImRandom | CStdRandom | CUnknown | CUntyped.\n");
+    out.push_str("(* (crate, alias, class) for every hash-container type alias of the three engine crates *)\nDefinition det_aliases : list (string * string * cclass) := [\n");
+    out.push_str(&alias_rows.iter().map(|(c, n, k)| format!("  ({}, {}, {})", coq_str(c), coq_str(n), k.coq())).collect::<Vec<_>>().join(";\n"));
+    out.push_str("\n].\n");
+    // aggregate (file, fn, what, class) -> count
+    let mut agg: BTreeMap<(String, String, String, Class), usize> = BTreeMap::new();
+    for s in &all_sites {
+        *agg.entry((s.file.clone(), s.func.clone(), s.what.clone(), s.class)).or_insert(0) += 1;
+    }
+    out.push_str("(* every iteration over a hash-based container the scan can type: (file, fn, site, class, count) *)\nDefinition iter_sites : list (string * string * string * cclass * nat) := [\n");
+    out.push_str(
+        &agg.iter()
+            .map(|((f, func, what, c), n)| format!("  ({}, {}, {}, {}, {})", coq_str(f), coq_str(func), coq_str(what), c.coq(), n))
+            .collect::<Vec<_>>()
+            .join(";\n"),
+    );
+    out.push_str("\n].\n");
+    out.push_str(&format!("Definition iter_sites_files_scanned : nat := {}.\n", n_files));
+    Ok(out)
+}
+
+// ------------------------------------------------------------------------------------------------
+// other sources of run-to-run variation: token scan of non-test items
+// ------------------------------------------------------------------------------------------------
+
+fn flatten_tokens(ts: proc_macro2::TokenStream, out: &mut Vec<String>) {
+    for tt in ts {
+        match tt {
+            proc_macro2::TokenTree::Group(g) => {
+                let (o, c) = match g.delimiter() {
+                    proc_macro2::Delimiter::Parenthesis => ("(", ")"),
+                    proc_macro2::Delimiter::Brace => ("{", "}"),
+                    proc_macro2::Delimiter::Bracket => ("[", "]"),
+                    proc_macro2::Delimiter::None => ("", ""),
+                };
+                out.push(o.to_string());
+                flatten_tokens(g.stream(), out);
+                out.push(c.to_string());
+            }
+            proc_macro2::TokenTree::Ident(i) => out.push(i.to_string()),
+            proc_macro2::TokenTree::Punct(p) => out.push(p.as_char().to_string()),
+            proc_macro2::TokenTree::Literal(l) => out.push(l.to_string()),
+        }
+    }
+}
+
+fn item_tokens(items: &[syn::Item], out: &mut Vec<String>) {
+    use quote::ToTokens;
+    for it in items {
+        match it {
+            syn::Item::Mod(m) => {
+                if is_test_attr(&m.attrs) || m.ident == "tests" {
+                    continue;
+                }
+                if let Some((_, inner)) = &m.content {
+                    item_tokens(inner, out);
+                }
+            }
+            syn::Item::Fn(f) if is_test_attr(&f.attrs) => {}
+            syn::Item::Impl(im) => {
+                for ii in &im.items {
+                    match ii {
+                        syn::ImplItem::Fn(f) if is_test_attr(&f.attrs) => {}
+                        other => {
+                            // drop doc attributes: they are `#[doc = "..."]` tokens holding prose
+                            let mut ts = proc_macro2::TokenStream::new();
+                            other.to_tokens(&mut ts);
+                            flatten_tokens(ts, out);
+                        }
+                    }
+                }
+            }
+            other => {
+                let mut ts = proc_macro2::TokenStream::new();
+                other.to_tokens(&mut ts);
+                flatten_tokens(ts, out);
+            }
+        }
+    }
+}
+
+fn nd_sources(repo: &Path) -> Result<String, String> {
+    let dirs = ["src", "egglog-bridge/src", "core-relations/src", "union-find/src", "concurrency/src", "numeric-id/src", "egglog-ast/src", "egglog-reports/src"];
+    let files = source_files(repo, &dirs);
+    if files.len() < 30 {
+        return Err(format!("only {} source files found", files.len()));
+    }
+    let mut rows: BTreeMap<(String, &'static str), usize> = BTreeMap::new();
+    for (rel, path) in &files {
+        let src = std::fs::read_to_string(path).map_err(|e| format!("{rel}: {e}"))?;
+        let file = syn::parse_file(&src).map_err(|e| format!("{rel}: does not parse: {e}"))?;
+        let mut t: Vec<String> = Vec::new();
+        item_tokens(&file.items, &mut t);
+        // strip `# [doc = "..."]` runs so that prose is not scanned
+        let mut toks: Vec<String> = Vec::with_capacity(t.len());
+        let mut i = 0;
+        while i < t.len() {
+            if t[i] == "#" && i + 5 < t.len() && t[i + 1] == "[" && t[i + 2] == "doc" && t[i + 3] == "=" {
+                i += 6;
+                continue;
+            }
+            toks.push(t[i].clone());
+            i += 1;
+        }
+        let mut bump = |k: &'static str| *rows.entry((rel.clone(), k)).or_insert(0) += 1;
+        for i in 0..toks.len() {
+            let a = toks[i].as_str();
+            let nxt = |k: usize| toks.get(i + k).map(|s| s.as_str()).unwrap_or("");
+            let prv = |k: usize| if i >= k { toks[i - k].as_str() } else { "" };
+            match a {
+                "Instant" if nxt(1) == ":" && nxt(2) == ":" && nxt(3) == "now" => bump("NdClock"),
+                "SystemTime" | "UNIX_EPOCH" => bump("NdClock"),
+                "thread_rng" | "getrandom" | "fastrand" | "RandomState" | "from_entropy" => bump("NdRng"),
+                "rand" if nxt(1) == ":" && nxt(2) == ":" && prv(1) != "use" => bump("NdRng"),
+                "rand" if prv(1) == "use" => bump("NdRng"),
+                "available_parallelism" | "num_cpus" | "sched_getaffinity" | "get_physical" => bump("NdHostCpus"),
+                "current_num_threads" if nxt(1) == "(" && prv(1) != "fn" => bump("NdPoolSize"),
+                "env" if nxt(1) == ":" && nxt(2) == ":" && ["var", "vars", "var_os", "vars_os", "current_dir", "temp_dir", "current_exe", "home_dir"].contains(&nxt(3)) => bump("NdEnv"),
+                "process" if nxt(1) == ":" && nxt(2) == ":" && nxt(3) == "id" => bump("NdPid"),
+                "thread" if nxt(1) == ":" && nxt(2) == ":" && nxt(3) == "current" => bump("NdPid"),
+                "as_ptr" | "as_mut_ptr" | "addr_of" | "addr_of_mut" | "expose_addr" | "into_raw" if prv(1) != "fn" => bump("NdAddr"),
+                "addr" if prv(1) == "." && nxt(1) == "(" => bump("NdAddr"),
+                "usize" | "u64" | "isize" | "i64" if prv(1) == "as" && (prv(3) == "const" || prv(3) == "mut") && prv(4) == "*" => bump("NdAddr"),
+                _ => {
+                    if a.starts_with('"') && (a.contains(":p}") || a.contains(":p$")) {
+                        bump("NdPtrFmt");
+                    }
+                }
+            }
+        }
+    }
+    let mut out = String::new();
+    out.push_str("Inductive nd_kind := NdClock | NdRng | NdHostCpus | NdPoolSize | NdPtrFmt | NdEnv | NdPid | NdAddr.\n");
+    out.push_str("(* reads of clock / rng / host CPU count / thread-pool size / pointer formatting / environment / pid+thread id / raw addresses in non-test code: (file, kind, count) *)\nDefinition nd_sources : list (string * nd_kind * nat) := [\n");
+    out.push_str(&rows.iter().map(|((f, k), n)| format!("  ({}, {}, {})", coq_str(f), k, n)).collect::<Vec<_>>().join(";\n"));
+    out.push_str("\n].\n");
+    out.push_str(&format!("Definition nd_sources_files_scanned : nat := {}.\n", files.len()));
+    Ok(out)
+}
+
+pub fn generate(repo: &Path) -> (String, Vec<String>) {
+    let mut out = String::new();
+    out.push_str("(* GENERATED by /verif/translator (x_det.rs): C20 iteration-site and nondeterminism-source inventories -- do not edit *)\n");
+    out.push_str("From Coq Require Import List String.\nImport ListNotations.\n\n");
+    let mut rep = Vec::new();
+    let items: [(&str, &str, fn(&Path) -> Result<String, String>); 2] = [
+        ("DetFacts.iter_sites", "src + egglog-bridge/src + core-relations/src", iteration_sites),
+        ("DetFacts.nd_sources", "workspace sources", nd_sources),
+    ];
+    for (item, file, f) in items {
+        match f(repo) {
+            Ok(t) => {
+                out.push_str(&t);
+                out.push('\n');
+                rep.push(format!("{{\"item\":\"{item}\",\"file\":\"{file}\",\"ok\":true}}"));
+            }
+            Err(e) => {
+                out.push_str(&format!("(* {item} FAILED: {} *)\n", e.replace("*)", "* )")));
+                rep.push(format!("{{\"item\":\"{item}\",\"file\":\"{file}\",\"ok\":false,\"error\":{:?}}}", e));
+            }
+        }
+    }
+    (out, rep)
 }
